@@ -581,3 +581,97 @@ Proof.
   - exists pt', pr'. split; [exact Gp'|]. split; [exact Hin'|].
     rewrite Hpk in Hk'. cbn in Hk'. rewrite Hk', Ek, EP. reflexivity.
 Qed.
+
+(* ------------------------------------------------------------------------------------ *)
+(** * Databases with the same schemas (rows arbitrary) *)
+
+Definition sames (d d' : db) : Prop := Forall2 same_schema d d'.
+
+Lemma sames_refl : forall d, sames d d.
+Proof. intros d. apply Forall2_refl. apply same_schema_refl. Qed.
+
+Lemma same_schema_trans : forall a b c, same_schema a b -> same_schema b c -> same_schema a c.
+Proof. intros a b c [A1 [A2 [A3 A4]]] [B1 [B2 [B3 B4]]]. repeat split; congruence. Qed.
+
+Lemma sames_trans : forall a b c, sames a b -> sames b c -> sames a c.
+Proof. intros a b c. apply Forall2_trans. apply same_schema_trans. Qed.
+
+Lemma dshrink_sames : forall D d d', dshrink D d d' -> sames d d'.
+Proof. intros D d d' H. induction H; constructor; auto. destruct H; assumption. Qed.
+
+Lemma sames_names : forall d d', sames d d' -> names d' = names d.
+Proof.
+  intros d d' H. induction H; cbn; [reflexivity|]. destruct H as [Hn _]. unfold names in *. rewrite Hn, IHForall2. reflexivity.
+Qed.
+
+Lemma sames_get : forall d d' n t, sames d d' -> get_table d n = Some t ->
+  exists t', get_table d' n = Some t' /\ same_schema t t'.
+Proof.
+  intros d d' n t H. induction H; intros G; [discriminate|].
+  unfold get_table in *. cbn in *. pose proof H as [Hn _].
+  rewrite Hn. destruct (Nat.eqb (t_name x) n) eqn:E.
+  - inversion G; subst. exists y. split; [reflexivity|assumption].
+  - apply IHForall2. exact G.
+Qed.
+
+Lemma sames_get_rev : forall d d' n t', sames d d' -> get_table d' n = Some t' ->
+  exists t, get_table d n = Some t /\ same_schema t t'.
+Proof.
+  intros d d' n t' H. induction H; intros G; [discriminate|].
+  unfold get_table in *. cbn in *. pose proof H as [Hn _].
+  rewrite Hn in G. destruct (Nat.eqb (t_name x) n) eqn:E.
+  - inversion G; subst. exists x. split; [reflexivity|assumption].
+  - apply IHForall2. exact G.
+Qed.
+
+Lemma sames_In : forall d d' t', sames d d' -> In t' d' -> exists t, In t d /\ same_schema t t'.
+Proof.
+  intros d d' t' H. induction H; intros HI; [contradiction|].
+  destruct HI as [->|HI].
+  - exists x. split; [left; reflexivity|assumption].
+  - destruct (IHForall2 HI) as [t [Ht Hs]]. exists t. split; [right|]; assumption.
+Qed.
+
+Lemma sames_In_fwd : forall d d' t, sames d d' -> In t d -> exists t', In t' d' /\ same_schema t t'.
+Proof.
+  intros d d' t H. induction H; intros HI; [contradiction|].
+  destruct HI as [->|HI].
+  - exists y. split; [left; reflexivity|assumption].
+  - destruct (IHForall2 HI) as [t' [Ht Hs]]. exists t'. split; [right|]; assumption.
+Qed.
+
+Lemma fk_standard_sames : forall d d' t t' fk,
+  sames d d' -> same_schema t t' -> fk_standard d' t' fk = fk_standard d t fk.
+Proof.
+  intros d d' t t' fk S [_ [Hc _]]. unfold fk_standard, ncols. rewrite Hc.
+  destruct (get_table d (fk_parent fk)) as [pt|] eqn:G.
+  - destruct (sames_get _ _ _ _ S G) as [pt' [G' [_ [_ [Hpk _]]]]]. rewrite G', Hpk. reflexivity.
+  - destruct (get_table d' (fk_parent fk)) as [pt'|] eqn:G'; [|reflexivity].
+    destruct (sames_get_rev _ _ _ _ S G') as [pt [G2 _]]. congruence.
+Qed.
+
+Lemma schema_standard_sames : forall d d', sames d d' -> schema_standard d' = schema_standard d.
+Proof.
+  intros d d' S. unfold schema_standard.
+  assert (forall l l', Forall2 same_schema l l' ->
+    forallb (fun t => forallb (fk_standard d' t) (t_fks t)
+       && match t_pk t with Some pk => strictly_ascending pk && forallb (fun c => Nat.ltb c (ncols t)) pk | None => true end) l' =
+    forallb (fun t => forallb (fk_standard d t) (t_fks t)
+       && match t_pk t with Some pk => strictly_ascending pk && forallb (fun c => Nat.ltb c (ncols t)) pk | None => true end) l) as X.
+  { intros l l' F. induction F as [|x y l l' Hxy F IH]; [reflexivity|]. cbn [forallb]. rewrite IH. f_equal.
+    pose proof Hxy as [A1 [A2 [A3 A4]]]. rewrite A3, A4. unfold ncols. rewrite A2. f_equal.
+    apply forallb_ext'. intros fk. apply (fk_standard_sames d d' x y fk S Hxy). }
+  apply X. exact S.
+Qed.
+
+Lemma set_rows_sames : forall d n rs, sames d (set_rows d n rs).
+Proof.
+  intros d n rs. unfold sames, set_rows. induction d as [|x d IH]; cbn; constructor; [|exact IH].
+  destruct (Nat.eqb (t_name x) n); repeat split.
+Qed.
+
+Lemma pk_cols_ok_sames : forall d d', sames d d' -> pk_cols_ok d -> pk_cols_ok d'.
+Proof.
+  intros d d' S P t' pk Ht Hpk. destruct (sames_In _ _ _ S Ht) as [t [Hin [_ [Hc [Hp _]]]]].
+  rewrite Hp in Hpk. unfold ncols, col_nullable. rewrite Hc. apply P; assumption.
+Qed.
